@@ -10,12 +10,12 @@ model replays that sequence: it must accept every step as legal (an item arrives
 remaining travel time has elapsed; the clock never passes a due arrival), compute the same
 admission outcomes from its own state, and hold the same items in the same order after each step.
 
-Times are multiples of 1/4 (ticks = 4 * time are integers), speeds and item lengths powers of two,
+Times are multiples of 1/64 (ticks = 64 * time are integers), speeds and item lengths powers of two,
 so the implementation's float arithmetic is exact."""
 import random, simpy
 from . import common
 
-TICK = 4
+TICK = 64
 
 
 class LogList(list):
@@ -150,8 +150,27 @@ def run_impl(case):
             s = services[n % len(services)]; n += 1
             if s:
                 yield env.timeout(s)
+    def poller(period, n, start):
+        """a non-blocking upstream: asks for an entry every `period`; takes it if granted at once, withdraws otherwise"""
+        if start:
+            yield env.timeout(start)
+        for _ in range(n):
+            ev = cv.reserve_put()
+            if ev.triggered:
+                k = counter[0]; counter[0] += 1
+                it = Item("it%d" % k); it.k = k
+                it.length = case.get("item_length", 1)
+                items[k] = dict(req=env.now, admit=env.now)
+                yield ev
+                cv.put(ev, it)
+            else:
+                cv.belt.reserve_put_cancel(ev)
+            yield env.timeout(period)
     for gaps in case["producers"]:
-        env.process(producer(gaps))
+        if isinstance(gaps, dict):
+            env.process(poller(gaps["poll"], gaps["n"], gaps.get("start", 0)))
+        else:
+            env.process(producer(gaps))
     env.process(consumer(case["first_get"], case["services"]))
     crash = None
     try:
@@ -245,6 +264,9 @@ def oracle(case, r):
         it = items[i]
         if n > 0:
             p = items[ids[n - 1]]
+            if case["kind"] == "cont" and not acc and it["put"] - p["put"] - stalled(p["put"], it["put"]) < u <= it["put"] - p["put"]:
+                V.append(("C12", "spacing-travel", "items %d and %d entered %s of belt travel apart (the belt stood still for %s in between), less than one item length (%s)" %
+                          (ids[n - 1], i, it["put"] - p["put"] - stalled(p["put"], it["put"]), stalled(p["put"], it["put"]), u)))
             if it["put"] - p["put"] < u:
                 V.append(("C12", "spacing", "items %d and %d entered %s apart, less than one item length of travel (%s)" % (ids[n - 1], i, it["put"] - p["put"], u)))
         if "ready" in it:
@@ -292,12 +314,17 @@ def gen_case(rng, nprod=None, kind=None):
     else:
         case.update(cap=rng.choice([1, 2, 3, 4, 5]), delay=rng.choice([1, 1, 2, 0.5]))
         u = case["delay"]
-    style = rng.choice(["regular", "bursty", "irregular", "irregular"])
+    style = rng.choice(["regular", "bursty", "irregular", "irregular", "fine", "poll"])
     nprod = nprod or (1 if rng.random() < 0.8 else 2)
     prods = []
     for _ in range(nprod):
         n = rng.randrange(2, 10)
-        if style == "regular":
+        if style == "poll":
+            prods.append(dict(poll=rng.choice([0.25, 0.25, 0.5, 0.125, 0.375]), n=rng.randrange(20, 120), start=rng.choice([0, 0, 0.125, 1])))
+            continue
+        if style == "fine":
+            gaps = [rng.randrange(0, 257) / 64 for _ in range(n)]
+        elif style == "regular":
             g = rng.choice([1, 2, 3]) * u
             gaps = [g] * n
         elif style == "bursty":
@@ -306,8 +333,12 @@ def gen_case(rng, nprod=None, kind=None):
             gaps = [rng.choice([0, 0.25, 0.5, 1, 1.5, 2, 3, 0.75, 5]) for _ in range(n)]
         prods.append(gaps)
     case["producers"] = prods
-    case["services"] = [rng.choice([0, 0, 0, 1, 2, 5, 0.5, 0.25]) for _ in range(rng.randrange(1, 5))]
-    case["first_get"] = rng.choice([0, 0, 3, 7, 2.5])
+    if style == "fine":
+        case["services"] = [rng.choice([0, 0, rng.randrange(0, 321) / 64]) for _ in range(rng.randrange(1, 5))]
+        case["first_get"] = rng.choice([0, rng.randrange(0, 513) / 64])
+    else:
+        case["services"] = [rng.choice([0, 0, 0, 1, 2, 5, 0.5, 0.25]) for _ in range(rng.randrange(1, 5))]
+        case["first_get"] = rng.choice([0, 0, 3, 7, 2.5])
     case["T"] = 80
     return case
 
